@@ -221,4 +221,629 @@ Proof.
       rewrite elem_of_app, elem_of_list_singleton. intros [Hin|Heq]; [done|congruence].
 Qed.
 
+(** * Commit *)
+Lemma foldl_removes (u : gmap N V) T rem k :
+  foldl (apply_treeop u) T (map (pair false) rem) !! k
+  = if decide (k ∈ rem) then None else T !! k.
+Proof.
+  revert T. induction rem as [|x rem IH]; intros T.
+  - destruct (decide (k ∈ [])) as [Hin|_]; [by apply elem_of_nil in Hin|done].
+  - assert (foldl (apply_treeop u) T (map (pair false) (x :: rem))
+            = foldl (apply_treeop u) (delete x T) (map (pair false) rem)) as -> by done.
+    rewrite IH.
+    destruct (decide (k ∈ rem)) as [Hin|Hnin], (decide (k ∈ x :: rem)) as [Hin'|Hnin'].
+    + done.
+    + destruct Hnin'. by right.
+    + apply elem_of_cons in Hin' as [->|Hin']; [by rewrite lookup_delete|done].
+    + apply not_elem_of_cons in Hnin' as [Hne _]. by rewrite lookup_delete_ne.
+Qed.
+
+Lemma foldl_sets (u : gmap N V) T ks k :
+  (∀ k', k' ∈ ks → is_Some (u !! k')) →
+  foldl (apply_treeop u) T (map (pair true) ks) !! k
+  = if decide (k ∈ ks) then u !! k else T !! k.
+Proof.
+  revert T. induction ks as [|x ks IH]; intros T Hks.
+  - destruct (decide (k ∈ [])) as [Hin|_]; [by apply elem_of_nil in Hin|done].
+  - destruct (Hks x) as [v Hv]; [by left|].
+    assert (foldl (apply_treeop u) T (map (pair true) (x :: ks))
+            = foldl (apply_treeop u) (<[x:=v]> T) (map (pair true) ks)) as ->.
+    { simpl. unfold apply_treeop at 2. simpl. by rewrite Hv. }
+    rewrite IH; [|intros k' Hk'; apply Hks; by right].
+    destruct (decide (k ∈ ks)) as [Hin|Hnin], (decide (k ∈ x :: ks)) as [Hin'|Hnin'].
+    + done.
+    + destruct Hnin'. by right.
+    + apply elem_of_cons in Hin' as [->|Hin']; [by rewrite lookup_insert|done].
+    + apply not_elem_of_cons in Hnin' as [Hne _]. by rewrite lookup_insert_ne.
+Qed.
+
+Lemma elem_of_upd_keys m k : k ∈ upd_keys m ↔ is_Some (upd m !! k).
+Proof.
+  unfold upd_keys. rewrite elem_of_list_fmap. split.
+  - intros [[k' v] [-> Hin]]. apply elem_of_map_to_list in Hin. by exists v.
+  - intros [v Hv]. exists (k, v). split; [done|]. by apply elem_of_map_to_list.
+Qed.
+
+(** The new tree in terms of the old tree and the consensus overlay's containers:
+    a pending write wins, else a pending removal deletes, else the old value stays. *)
+Lemma commit_tree_lookup c k :
+  tree (commit c).1 !! k =
+  match upd (fin c) !! k with
+  | Some v => Some v
+  | None => if decide (k ∈ removed (fin c)) then None else tree c !! k
+  end.
+Proof.
+  unfold commit, commit_treeops; simpl. rewrite foldl_app.
+  rewrite foldl_sets.
+  - rewrite foldl_removes.
+    destruct (decide (k ∈ sort_desc (upd_keys (fin c)))) as [Hin|Hnin].
+    + apply elem_of_sort_desc, elem_of_upd_keys in Hin. destruct Hin as [v Hv]. by rewrite Hv.
+    + rewrite elem_of_sort_desc, elem_of_upd_keys in Hnin.
+      destruct (upd (fin c) !! k) as [v|] eqn:Hv; [|done]. destruct Hnin. by exists v.
+  - intros k' Hk'. by apply elem_of_sort_desc, elem_of_upd_keys in Hk'.
+Qed.
+
+Lemma commit_tree_spec_lookup (o : overlay V) T k :
+  commit_tree o T !! k = commit_key (o !! k) (T !! k).
+Proof.
+  unfold commit_tree. rewrite lookup_merge.
+  destruct (o !! k), (T !! k); done.
+Qed.
+
+Lemma commit_hist c : hist (commit c).1 = hist c ++ [tree (commit c).1].
+Proof. done. Qed.
+
+(** * The simulation relation *)
+Definition R c s : Prop :=
+  hist c = committed s ∧
+  tree c = default ∅ (last (hist c)) ∧
+  Rov (chk c) (mp s) (tree c) ∧
+  Rov (fin c) (cs s) (tree c).
+
+Lemma R_empty : R fledger_empty sstate_empty.
+Proof. split; [done|split; [done|split; apply Rov_empty]]. Qed.
+
+Lemma R_latest c s : R c s → latest s = tree c.
+Proof. intros (Hh & Ht & _). unfold latest. by rewrite <-Hh, Ht. Qed.
+
+Lemma erase_out_of_read (r : option V) : erase_treeops (out_of_read r) = out_of_read r.
+Proof. by destruct r. Qed.
+
+Lemma erase_idemp (x : out V) : erase_treeops (erase_treeops x) = erase_treeops x.
+Proof. by destruct x. Qed.
+
+Lemma commit_sim c s :
+  R c s →
+  commit_tree (cs s) (tree c) = tree (commit c).1 ∧
+  R (commit c).1 (SState (committed s ++ [commit_tree (cs s) (tree c)]) ∅ ∅).
+Proof.
+  intros (Hh & Ht & Hm & (Hu & Hr & Ha & Hc)).
+  assert (commit_tree (cs s) (tree c) = tree (commit c).1) as HT.
+  { apply map_eq. intros k. rewrite commit_tree_lookup, commit_tree_spec_lookup.
+    specialize (Hu k). specialize (Hr k). unfold ent_of in Hu, Hr.
+    destruct (cs s !! k) as [e|]; simpl in *.
+    - rewrite Hu. destruct (written e) as [v|]; [done|].
+      rewrite <-Hr. destruct (decide (k ∈ removed (fin c))) as [Hin|Hnin].
+      + apply cnt_pos_iff in Hin. by destruct (cnt k (removed (fin c))).
+      + apply cnt_0_iff in Hnin. by rewrite Hnin.
+    - rewrite Hu. apply cnt_0_iff in Hr. by rewrite decide_False. }
+  split; [done|].
+  rewrite HT. split; [|split; [|split]].
+  - rewrite commit_hist. simpl. by rewrite Hh.
+  - rewrite commit_hist. by rewrite last_snoc.
+  - apply Rov_empty.
+  - split; [|split; [|split]].
+    + intros k. rewrite ent_of_empty. simpl. by rewrite lookup_empty.
+    + intros k. by rewrite ent_of_empty.
+    + intros k v Hk. simpl in Hk. by rewrite lookup_empty in Hk.
+    + intros k v Hg _. split; [apply not_elem_of_nil|].
+      rewrite commit_tree_lookup. simpl in Hg.
+      apply lookup_union_Some_raw in Hg as [Hg|[Hn Hg]].
+      * by rewrite Hg.
+      * rewrite Hn. destruct (Hc k v Hg Hn) as [Hnr Hv]. by rewrite decide_False.
+Qed.
+
+(** * One step *)
+Lemma step_sim c s (o : op V) :
+  R c s →
+  erase_treeops (step c o).2 = (spec_step s o).2 ∧ R (step c o).1 (spec_step s o).1.
+Proof.
+  intros HR. pose proof (R_latest c s HR) as HT.
+  pose proof HR as (Hh & Ht & Hm & Hf).
+  unfold step, step_with, spec_step. rewrite HT.
+  destruct o as [k v|k|k|k|k|k| |k v|k|k|k|k| | |n k|n| ].
+  - (* SetM *) split; [done|]. split; [done|split; [done|split; [|done]]]. by apply mem_set_sim.
+  - (* CancelSetM *) split; [done|]. split; [done|split; [done|split; [|done]]].
+    by apply mem_cancel_set_sim.
+  - (* GetM *)
+    destruct (mem_get_sim (chk c) (mp s) (tree c) k Hm) as (Hv & HR1 & _).
+    destruct (mem_get (tree c) k (chk c)) as [m1 r]. simpl in *.
+    rewrite erase_out_of_read, Hv. split; [done|]. by split; [|split; [|split]].
+  - (* DelM *)
+    destruct (mem_del_sim (chk c) (mp s) (tree c) k Hm) as (Hv & HR1).
+    destruct (mem_del mem_get (tree c) k (chk c)) as [m1 r].
+    destruct (o_del (tree c) k (mp s)) as [o1 r']. simpl in *.
+    rewrite erase_out_of_read, Hv. split; [done|]. by split; [|split; [|split]].
+  - (* CancelDelM *) split; [done|]. split; [done|split; [done|split; [|done]]].
+    by apply del_removed_key_sim.
+  - (* Read *) simpl. by rewrite erase_out_of_read.
+  - (* IterM *) done.
+  - (* SetF *) split; [done|]. split; [done|split; [done|split; [done|]]]. by apply mem_set_sim.
+  - (* CancelSetF *) split; [done|]. split; [done|split; [done|split; [done|]]].
+    by apply mem_cancel_set_sim.
+  - (* GetF *)
+    destruct (mem_get_sim (fin c) (cs s) (tree c) k Hf) as (Hv & HR1 & _).
+    destruct (mem_get (tree c) k (fin c)) as [m1 r]. simpl in *.
+    rewrite erase_out_of_read, Hv. split; [done|]. by split; [|split; [|split]].
+  - (* DelF *)
+    destruct (mem_del_sim (chk c) (mp s) (tree c) k Hm) as (_ & HR1).
+    destruct (mem_del_sim (fin c) (cs s) (tree c) k Hf) as (Hv & HR2).
+    destruct (mem_del mem_get (tree c) k (chk c)) as [m1 r1].
+    destruct (o_del (tree c) k (mp s)) as [o1 r1'].
+    destruct (mem_del mem_get (tree c) k (fin c)) as [m2 r2].
+    destruct (o_del (tree c) k (cs s)) as [o2 r2']. simpl in *.
+    rewrite erase_out_of_read, Hv. split; [done|]. by split; [|split; [|split]].
+  - (* CancelDelF *) split; [done|]. split; [done|split; [done|split; [done|]]].
+    by apply del_removed_key_sim.
+  - (* IterF *) done.
+  - (* Commit *)
+    destruct (commit_sim c s HR) as (_ & HR'). split; [|done].
+    simpl. by rewrite Hh.
+  - (* ReadAt *) simpl. rewrite Hh. split; [|done].
+    destruct (tree_at (committed s) n); [|done]. by rewrite erase_out_of_read.
+  - (* IterAt *) simpl. rewrite Hh. split; [|done]. by destruct (tree_at (committed s) n).
+  - (* Reopen *) split; [done|]. simpl. split; [done|split; [done|split; apply Rov_empty]].
+Qed.
+
+(** the same in the form "let (c', oc) := step c o in let (s', os) := spec_step s o in ..." *)
+Lemma step_sim_let c s (o : op V) :
+  R c s →
+  let '(c', oc) := step c o in
+  let '(s', os) := spec_step s o in
+  erase_treeops oc = os ∧ R c' s'.
+Proof.
+  intros HR. pose proof (step_sim c s o HR) as Hs.
+  destruct (step c o) as [c' oc], (spec_step s o) as [s' os]. done.
+Qed.
+
+(** * Whole runs *)
+Lemma run_sim ops : ∀ c s,
+  R c s →
+  outs (run_from step c ops).2 = (spec_run_from s ops).2 ∧
+  R (run_from step c ops).1 (spec_run_from s ops).1.
+Proof.
+  induction ops as [|o ops IH]; intros c s HR; simpl; [done|].
+  destruct (step_sim c s o HR) as (Ho & HR1).
+  destruct (step c o) as [c1 x], (spec_step s o) as [s1 y]. simpl in *.
+  destruct (IH c1 s1 HR1) as (Hos & HR2).
+  destruct (run_from step c1 ops) as [c2 xs], (spec_run_from s1 ops) as [s2 ys]. simpl in *.
+  split; [|done]. unfold outs in *. simpl. by rewrite Ho, Hos.
+Qed.
+
+Lemma spec_outs_erased ops : ∀ s, outs (spec_run_from s ops).2 = (spec_run_from s ops).2.
+Proof.
+  induction ops as [|o ops IH]; intros s; simpl; [done|].
+  assert (erase_treeops (spec_step s o).2 = (spec_step s o).2) as He.
+  { unfold spec_step. destruct o; simpl; try done; try apply erase_out_of_read;
+      repeat match goal with
+      | |- context [o_del ?a ?b ?d] => destruct (o_del a b d)
+      | |- context [tree_at ?a ?b] => destruct (tree_at a b)
+      end; simpl; try done; apply erase_out_of_read. }
+  destruct (spec_step s o) as [s1 y]. specialize (IH s1).
+  destruct (spec_run_from s1 ops) as [s2 ys]. simpl in *. unfold outs in *. simpl.
+  by rewrite He, IH.
+Qed.
+
+(** MAIN THEOREM: on every finite sequence of operations the (repaired) ledger model and
+    the abstract store produce the same observations. *)
+Theorem ledger_refines (ops : list (op V)) : outs (run ops) = outs (spec_run ops).
+Proof.
+  unfold run, spec_run. rewrite spec_outs_erased.
+  apply (run_sim ops fledger_empty sstate_empty R_empty).
+Qed.
+
+(** every reachable state is related to the spec state reached by the same operations *)
+Lemma final_R (ops : list (op V)) : R (final ops) (spec_run_from sstate_empty ops).1.
+Proof. apply (run_sim ops fledger_empty sstate_empty R_empty). Qed.
+
+(** * Runs: append *)
+Lemma run_from_app (stp : fledger V → op V → fledger V * out V) (ops1 : list (op V)) :
+  ∀ c (ops2 : list (op V)),
+  run_from stp c (ops1 ++ ops2) =
+  ((run_from stp (run_from stp c ops1).1 ops2).1,
+   (run_from stp c ops1).2 ++ (run_from stp (run_from stp c ops1).1 ops2).2).
+Proof.
+  induction ops1 as [|p ops1 IH]; intros c ops2; simpl.
+  - by destruct (run_from stp c ops2).
+  - destruct (stp c p) as [c1 x]. rewrite IH.
+    destruct (run_from stp c1 ops1) as [c2 xs]. simpl.
+    by destruct (run_from stp c2 ops2).
+Qed.
+
+Lemma final_app (ops1 ops2 : list (op V)) : final (ops1 ++ ops2) = (run_from step (final ops1) ops2).1.
+Proof. unfold final. by rewrite run_from_app. Qed.
+
+Lemma run_app (ops1 ops2 : list (op V)) : run (ops1 ++ ops2) = run ops1 ++ (run_from step (final ops1) ops2).2.
+Proof. unfold run, final. by rewrite run_from_app. Qed.
+
+Lemma run_snoc (ops : list (op V)) (p : op V) : run (ops ++ [p]) = run ops ++ [(step (final ops) p).2].
+Proof. rewrite run_app. simpl. by destruct (step (final ops) p). Qed.
+
+(** * Corollary 1: the mempool overlay is invisible to consensus reads and discarded by commit *)
+Definition mempool_op (p : op V) : bool :=
+  match p with
+  | SetM _ _ | CancelSetM _ | GetM _ | DelM _ | CancelDelM _ => true
+  | _ => false
+  end.
+
+(* the outputs at the positions of the non-mempool operations *)
+Fixpoint cons_outs (ops : list (op V)) (xs : list (out V)) : list (out V) :=
+  match ops, xs with
+  | p :: ops', x :: xs' => if mempool_op p then cons_outs ops' xs' else x :: cons_outs ops' xs'
+  | _, _ => []
+  end.
+
+Fixpoint drop_mempool_ops (ops : list (op V)) : list (op V) :=
+  match ops with
+  | [] => []
+  | p :: ops' => if mempool_op p then drop_mempool_ops ops' else p :: drop_mempool_ops ops'
+  end.
+
+(* equal up to the mempool overlay *)
+Definition cons_eq c c' : Prop := tree c = tree c' ∧ hist c = hist c' ∧ fin c = fin c'.
+
+Lemma step_mempool_op c (p : op V) : mempool_op p = true → cons_eq (step c p).1 c.
+Proof.
+  unfold step, step_with. destruct p as [k v|k|k|k|k|k| |k v|k|k|k|k| | |n k|n| ]; try done; intros _.
+  - by destruct (mem_get (tree c) k (chk c)).
+  - by destruct (mem_del mem_get (tree c) k (chk c)).
+Qed.
+
+Lemma step_cons_eq c c' (p : op V) :
+  mempool_op p = false → cons_eq c c' →
+  (step c p).2 = (step c' p).2 ∧ cons_eq (step c p).1 (step c' p).1.
+Proof.
+  destruct c as [t h ch f], c' as [t' h' ch' f']. intros Hp (Ht & Hh & Hf). simpl in *. subst.
+  unfold step, step_with.
+  destruct p as [k v|k|k|k|k|k| |k v|k|k|k|k| | |n k|n| ]; try done; simpl.
+  - by destruct (mem_get t' k f').
+  - destruct (mem_del mem_get t' k ch), (mem_del mem_get t' k ch'). by destruct (mem_del mem_get t' k f').
+Qed.
+
+Lemma mempool_invisible_from (ops : list (op V)) : ∀ c c',
+  cons_eq c c' →
+  cons_outs ops (run_from step c ops).2 = (run_from step c' (drop_mempool_ops ops)).2.
+Proof.
+  induction ops as [|p ops IH]; intros c c' Hc; simpl; [done|].
+  destruct (mempool_op p) eqn:Hp.
+  - pose proof (step_mempool_op c p Hp) as (H1 & H2 & H3).
+    destruct (step c p) as [c1 x]. simpl in *.
+    specialize (IH c1 c').
+    destruct (run_from step c1 ops) as [c2 xs]. simpl. rewrite ?Hp. apply IH.
+    destruct Hc as (Hc1 & Hc2 & Hc3). split; [congruence|split; congruence].
+  - destruct (step_cons_eq c c' p Hp Hc) as (Ho & Hc1). simpl.
+    destruct (step c p) as [c1 x], (step c' p) as [c1' x']. simpl in *. subst x'.
+    specialize (IH c1 c1' Hc1).
+    destruct (run_from step c1 ops) as [c2 xs], (run_from step c1' (drop_mempool_ops ops)) as [c2' xs'].
+    simpl in *. rewrite ?Hp. by rewrite IH.
+Qed.
+
+(** Deleting every mempool-overlay operation (Set, CancelSet, Get, Del, CancelDel) from a
+    run changes no output of any other operation — in particular of no GetFinality,
+    DelFinality, Commit, Read, iterate or historical read. *)
+Theorem mempool_invisible (ops : list (op V)) :
+  cons_outs ops (run ops) = run (drop_mempool_ops ops).
+Proof. unfold run. by apply mempool_invisible_from. Qed.
+
+Lemma mem_get_empty T k :
+  mem_get T k mem_empty =
+  match tree_read T k with
+  | Some v => (set_got_item k v mem_empty, Some v)
+  | None => (mem_empty, None)
+  end.
+Proof.
+  unfold mem_get.
+  assert (is_removed_key (mem_empty : mem V) k = false) as ->
+    by apply is_removed_key_false, not_elem_of_nil.
+  assert (got (mem_empty : mem V) !! k = None) as -> by apply lookup_empty.
+  done.
+Qed.
+
+(** After a commit the mempool overlay is empty: a mempool read sees the committed value. *)
+Theorem mempool_discarded_by_commit (ops : list (op V)) k :
+  chk (final (ops ++ [Commit])) = mem_empty ∧
+  run (ops ++ [Commit; GetM k]) = run (ops ++ [Commit; Read k]).
+Proof.
+  split.
+  - rewrite final_app. done.
+  - replace (ops ++ [Commit; GetM k]) with ((ops ++ [Commit]) ++ [GetM k]) by by rewrite <-app_assoc.
+    replace (ops ++ [Commit; Read k]) with ((ops ++ [Commit]) ++ [Read k]) by by rewrite <-app_assoc.
+    rewrite !run_snoc. f_equal. f_equal.
+    assert (∀ c', chk c' = mem_empty → (step c' (GetM k)).2 = (step c' (Read k)).2) as Hgen.
+    { intros c' Hc'. unfold step, step_with. rewrite Hc', mem_get_empty.
+      by destruct (tree_read (tree c') k). }
+    apply Hgen. by rewrite final_app.
+Qed.
+
+(** * Corollary 2: a commit persists exactly the consensus overlay's net effect as version+1 *)
+Theorem commit_net_effect c :
+  let c' := (step c Commit).1 in
+  hist c' = hist c ++ [tree c'] ∧
+  (∃ tops, (step c Commit).2 = OCommitted (N.of_nat (S (length (hist c)))) tops) ∧
+  ∀ k, tree c' !! k =
+       match upd (fin c) !! k with
+       | Some v => Some v
+       | None => if decide (k ∈ removed (fin c)) then None else tree c !! k
+       end.
+Proof.
+  simpl. split; [done|]. split; [by eexists|]. intros k. apply commit_tree_lookup.
+Qed.
+
+Lemma tree_at_snoc_new (h : list (gmap N V)) T :
+  tree_at (h ++ [T]) (Z.of_nat (S (length h))) = Some T.
+Proof.
+  unfold tree_at.
+  destruct (decide (Z.of_nat (length (h ++ [T])) < Z.of_nat (S (length h)))%Z) as [Hlt|_].
+  { rewrite app_length in Hlt. simpl in Hlt. lia. }
+  destruct (decide (Z.of_nat (S (length h)) ≤ 0)%Z) as [Hle|_]; [lia|].
+  replace (Z.to_nat (Z.of_nat (S (length h)) - 1)) with (length h) by lia.
+  by rewrite list_lookup_middle.
+Qed.
+
+Lemma tree_at_prefix (h h' : list (gmap N V)) n :
+  (1 ≤ n ≤ Z.of_nat (length h))%Z → tree_at (h ++ h') n = tree_at h n.
+Proof.
+  intros Hn. unfold tree_at.
+  destruct (decide (Z.of_nat (length (h ++ h')) < n)%Z) as [Hlt|_].
+  { rewrite app_length in Hlt. lia. }
+  destruct (decide (Z.of_nat (length h) < n)%Z) as [Hlt|_]; [lia|].
+  destruct (decide (n ≤ 0)%Z) as [Hle|_]; [lia|].
+  apply lookup_app_l. lia.
+Qed.
+
+Lemma commit_key_view (o : overlay V) T k : commit_key (o !! k) (T !! k) = view o T k.
+Proof. unfold view, ent_of. by destruct (o !! k). Qed.
+
+(** In every reachable state: what version+1 holds for a key after Commit is exactly what
+    GetFinality returned for that key just before the commit (and nothing of the mempool
+    overlay: see [mempool_invisible]). *)
+Theorem commit_persists_consensus_view (ops : list (op V)) k :
+  let c := final ops in
+  let c' := (step c Commit).1 in
+  length (hist c') = S (length (hist c)) ∧
+  (step c' (ReadAt (Z.of_nat (S (length (hist c)))) k)).2 = (step c (GetF k)).2.
+Proof.
+  intros c c'. pose proof (final_R ops) as HR. fold c in HR.
+  set (s := (spec_run_from sstate_empty ops).1) in HR.
+  destruct (commit_sim c s HR) as (HT & _).
+  pose proof HR as (_ & _ & _ & Hf).
+  destruct (mem_get_sim (fin c) (cs s) (tree c) k Hf) as (Hv & _ & _).
+  split.
+  - unfold c'. simpl. rewrite app_length. simpl. lia.
+  - unfold c', step, step_with. simpl. rewrite tree_at_snoc_new.
+    destruct (mem_get (tree c) k (fin c)) as [m1 r]. simpl in *. rewrite Hv.
+    unfold tree_read. fold (tree (commit c).1). rewrite <-HT.
+    by rewrite commit_tree_spec_lookup, commit_key_view.
+Qed.
+
+(** * Corollary 3: history is immutable *)
+Lemma step_hist_grows c (p : op V) : ∃ h', hist (step c p).1 = hist c ++ h'.
+Proof.
+  unfold step, step_with.
+  destruct p as [k v|k|k|k|k|k| |k v|k|k|k|k| | |n k|n| ]; simpl;
+    try (exists []; by rewrite app_nil_r).
+  - destruct (mem_get _ _ _). exists []. by rewrite app_nil_r.
+  - destruct (mem_del _ _ _ _). exists []. by rewrite app_nil_r.
+  - destruct (mem_get _ _ _). exists []. by rewrite app_nil_r.
+  - destruct (mem_del _ _ _ _), (mem_del _ _ _ _). exists []. by rewrite app_nil_r.
+  - by eexists.
+Qed.
+
+Lemma run_hist_grows (ops : list (op V)) : ∀ c, ∃ h', hist (run_from step c ops).1 = hist c ++ h'.
+Proof.
+  induction ops as [|p ops IH]; intros c; simpl.
+  - exists []. by rewrite app_nil_r.
+  - destruct (step_hist_grows c p) as [h1 H1].
+    destruct (step c p) as [c1 x]. simpl in *.
+    destruct (IH c1) as [h2 H2].
+    destruct (run_from step c1 ops) as [c2 xs]. simpl in *.
+    exists (h1 ++ h2). by rewrite H2, H1, app_assoc.
+Qed.
+
+Lemma step_ReadAt c n k :
+  (step c (ReadAt n k)).2 =
+  match tree_at (hist c) n with Some T => out_of_read (tree_read T k) | None => OErr end.
+Proof. done. Qed.
+Lemma step_IterAt c n :
+  (step c (IterAt n)).2 =
+  match tree_at (hist c) n with Some T => OItems (sorted_items T) | None => OErr end.
+Proof. done. Qed.
+
+(** Whatever operations [ops'] follow (further commits, reopen, ...), reading an existing
+    version n gives what it gave when that version was the newest or any time in between. *)
+Theorem history_immutable (ops ops' : list (op V)) n :
+  (1 ≤ n ≤ Z.of_nat (length (hist (final ops))))%Z →
+  (∀ k, (step (final (ops ++ ops')) (ReadAt n k)).2 = (step (final ops) (ReadAt n k)).2) ∧
+  (step (final (ops ++ ops')) (IterAt n)).2 = (step (final ops) (IterAt n)).2.
+Proof.
+  intros Hn. rewrite final_app.
+  destruct (run_hist_grows ops' (final ops)) as [h' Hh].
+  split; [intros k|]; rewrite ?step_ReadAt, ?step_IterAt, Hh, tree_at_prefix by done; done.
+Qed.
+
+(** the same on traces *)
+Theorem history_immutable_trace (ops ops' : list (op V)) n k :
+  (1 ≤ n ≤ Z.of_nat (length (hist (final ops))))%Z →
+  last (run (ops ++ ops' ++ [ReadAt n k])) = last (run (ops ++ [ReadAt n k])).
+Proof.
+  intros Hn. rewrite app_assoc, !run_snoc, !last_snoc.
+  by destruct (history_immutable ops ops' n Hn) as [-> _].
+Qed.
+
+(** * Corollary 4: the tree operations of a commit do not depend on the order in which
+    Go's map iteration delivers the keys of updatedItems *)
+Theorem commit_treeops_order_irrelevant rem (l1 l2 : list N) :
+  l1 ≡ₚ l2 → commit_treeops rem l1 = commit_treeops rem l2.
+Proof. intros Hp. unfold commit_treeops. by rewrite (sort_desc_perm l1 l2 Hp). Qed.
+
+Theorem commit_output_order_irrelevant c (iter_keys : list N) :
+  iter_keys ≡ₚ upd_keys (fin c) →
+  (step c Commit).2 =
+    OCommitted (N.of_nat (S (length (hist c)))) (commit_treeops (removed (fin c)) iter_keys) ∧
+  tree (step c Commit).1 =
+    foldl (apply_treeop (upd (fin c))) (tree c) (commit_treeops (removed (fin c)) iter_keys).
+Proof.
+  intros Hp. simpl. by rewrite (commit_treeops_order_irrelevant _ _ _ Hp).
+Qed.
+
+(** * Mutation through aliased pointers (outside C18) *)
+Definition xfinal (ops : list (xop V)) : fledger V := (xrun_from fledger_empty ops).1.
+
+Lemma alias_empty : alias_inv (mem_empty : mem V).
+Proof. intros k v Hk. simpl in Hk. by rewrite lookup_empty in Hk. Qed.
+
+Lemma alias_set k v m : alias_inv m → alias_inv (mem_set k v m).
+Proof.
+  intros Ha k' v'. simpl. destruct (decide (k = k')) as [<-|Hne].
+  - by rewrite !lookup_insert.
+  - rewrite !lookup_insert_ne by done. apply Ha.
+Qed.
+
+Lemma alias_cancel_set k m : alias_inv m → alias_inv (mem_cancel_set k m).
+Proof.
+  intros Ha k' v'. simpl. destruct (decide (k = k')) as [<-|Hne].
+  - by rewrite !lookup_delete.
+  - rewrite !lookup_delete_ne by done. apply Ha.
+Qed.
+
+Lemma alias_get T k m : alias_inv m → alias_inv (mem_get T k m).1.
+Proof.
+  intros Ha. unfold mem_get. destruct (got m !! k) as [v|] eqn:Hg; [done|].
+  destruct (is_removed_key m k); [done|]. destruct (tree_read T k) as [v|]; [|done].
+  intros k' v' Hk'. simpl in *. destruct (decide (k = k')) as [<-|Hne].
+  - apply Ha in Hk'. congruence.
+  - rewrite lookup_insert_ne by done. by apply Ha.
+Qed.
+
+Lemma alias_del T k m : alias_inv m → alias_inv (mem_del mem_get T k m).1.
+Proof.
+  intros Ha. pose proof (alias_get T k m Ha) as Ha1. unfold mem_del.
+  destruct (mem_get T k m) as [m1 [v|]]; simpl in *; [|done].
+  intros k' v'. simpl. destruct (decide (k = k')) as [<-|Hne].
+  - by rewrite !lookup_delete.
+  - rewrite !lookup_delete_ne by done. apply Ha1.
+Qed.
+
+Lemma alias_refresh m : alias_inv (mem_refresh m).
+Proof. intros k v Hk. simpl in Hk. by rewrite lookup_empty in Hk. Qed.
+
+Lemma alias_mutate k f m : alias_inv m → alias_inv (mem_mutate_got k f m).
+Proof.
+  intros Ha k' v'. simpl. destruct (decide (k = k')) as [<-|Hne].
+  - rewrite !lookup_alter. destruct (upd m !! k) as [w|] eqn:Hw; [|done].
+    apply Ha in Hw. by rewrite Hw.
+  - rewrite !lookup_alter_ne by done. apply Ha.
+Qed.
+
+Lemma alias_step c (p : op V) :
+  alias_inv (chk c) → alias_inv (fin c) →
+  alias_inv (chk (step c p).1) ∧ alias_inv (fin (step c p).1).
+Proof.
+  intros Hm Hf. unfold step, step_with.
+  destruct p as [k v|k|k|k|k|k| |k v|k|k|k|k| | |n k|n| ]; simpl; try done.
+  - split; [by apply alias_set|done].
+  - split; [by apply alias_cancel_set|done].
+  - pose proof (alias_get (tree c) k (chk c) Hm). by destruct (mem_get _ _ _).
+  - pose proof (alias_del (tree c) k (chk c) Hm). by destruct (mem_del _ _ _ _).
+  - split; [done|by apply alias_set].
+  - split; [done|by apply alias_cancel_set].
+  - pose proof (alias_get (tree c) k (fin c) Hf). by destruct (mem_get _ _ _).
+  - pose proof (alias_del (tree c) k (chk c) Hm). pose proof (alias_del (tree c) k (fin c) Hf).
+    by destruct (mem_del _ _ _ (chk c)), (mem_del _ _ _ (fin c)).
+Qed.
+
+Lemma alias_xstep c (p : xop V) :
+  alias_inv (chk c) → alias_inv (fin c) →
+  alias_inv (chk (xstep c p).1) ∧ alias_inv (fin (xstep c p).1).
+Proof.
+  intros Hm Hf. destruct p as [p|k f|k f]; simpl.
+  - by apply alias_step.
+  - split; [by apply alias_mutate|done].
+  - split; [done|by apply alias_mutate].
+Qed.
+
+(** in every state reachable by ledger operations and in-place mutations, the object in
+    updatedItems is the object in gotItems *)
+Theorem alias_inv_reachable (ops : list (xop V)) :
+  alias_inv (chk (xfinal ops)) ∧ alias_inv (fin (xfinal ops)).
+Proof.
+  unfold xfinal.
+  assert (∀ c, alias_inv (chk c) → alias_inv (fin c) →
+    alias_inv (chk (xrun_from c ops).1) ∧ alias_inv (fin (xrun_from c ops).1)) as Hgen.
+  { induction ops as [|p ops IH]; intros c Hm Hf; simpl; [done|].
+    destruct (alias_xstep c p Hm Hf) as (Hm1 & Hf1).
+    destruct (xstep c p) as [c1 x]. simpl in *.
+    specialize (IH c1 Hm1 Hf1). by destruct (xrun_from c1 ops). }
+  apply Hgen; apply alias_empty.
+Qed.
+
+(** Set/SetFinality after an in-place mutation = a plain Set/SetFinality of the mutated value *)
+Lemma set_after_mutate_gen k f x m : mem_set k x (mem_mutate_got k f m) = mem_set k x m.
+Proof.
+  unfold mem_set, mem_mutate_got, set_got_item, set_updated_item. simpl.
+  f_equal; apply map_eq; intros k'; (destruct (decide (k = k')) as [<-|Hne];
+    [by rewrite !lookup_insert|by rewrite !lookup_insert_ne, lookup_alter_ne by done]).
+Qed.
+
+Lemma set_after_mutate k f v m :
+  got m !! k = Some v → mem_set k (f v) (mem_mutate_got k f m) = mem_set k (f v) m.
+Proof. intros _. apply set_after_mutate_gen. Qed.
+
+(** ... whereas WITHOUT the following Set the mutation of a clean cached object is visible
+    to reads but never reaches the tree (it is not in updatedItems): *)
+Lemma mutate_clean_not_committed k f m :
+  upd m !! k = None → upd (mem_mutate_got k f m) !! k = None.
+Proof. intros Hu. simpl. by rewrite lookup_alter, Hu. Qed.
+
 End refine.
+
+(** * The unrepaired code does NOT refine the specification *)
+Theorem ledger_buggy_refuted :
+  ∃ ops : list (op N), outs (run_buggy ops) ≠ outs (run_spec ops).
+Proof.
+  exists [SetF 1%N 10%N; Commit; DelF 1%N; SetF 1%N 11%N; GetF 1%N].
+  vm_compute. intros Heq. discriminate Heq.
+Qed.
+
+(** * The premises are inhabited: a non-trivial run
+    key 1 is written and committed (version 1), then within one commit interval deleted,
+    re-created, deleted twice more (the second delete fails: NotFound) and re-created
+    again; the mempool write of key 2 is seen by the mempool read only and is gone after
+    the commit; two more commits and a reopen later, versions 1 and 2 still read as
+    committed. *)
+Open Scope N_scope.
+Definition c18_example : list (op N) :=
+  [SetF 1 10; SetM 2 7; GetM 2; GetF 2; Commit; GetM 2; GetF 1; DelF 1; GetF 1; SetF 1 11;
+   GetF 1; DelF 1; DelF 1; SetF 1 12; SetF 3 30; Commit; DelF 3; Commit; Reopen;
+   ReadAt 1 1; ReadAt 2 1; ReadAt 3 1; IterAt 2; ReadAt 0 3; ReadAt 4 1].
+
+Example c18_example_run :
+  run c18_example =
+  [ONil; ONil; OVal 7; ONotFound; OCommitted 1 [(true, 1)]; ONotFound;
+   OVal 10; OVal 10; ONotFound; ONil; OVal 11;
+   OVal 11; ONotFound; ONil; ONil;
+   OCommitted 2 [(false, 1); (false, 1); (true, 3); (true, 1)];
+   OVal 30; OCommitted 3 [(false, 3)]; ONil;
+   OVal 10; OVal 12; OVal 12; OItems [(1, 12); (3, 30)]; ONotFound; OErr].
+Proof. vm_compute. reflexivity. Qed.
+
+(* the premise of [history_immutable] holds for version 2 after the first 16 operations,
+   with the remaining 9 (a commit, a reopen, ...) as [ops'] *)
+Example c18_example_history_premise :
+  (1 ≤ 2 ≤ Z.of_nat (length (hist (final (take 16 c18_example)))))%Z ∧
+  c18_example = take 16 c18_example ++ drop 16 c18_example.
+Proof.
+  split; [|by rewrite take_drop].
+  vm_compute. split; intros Hc; discriminate Hc.
+Qed.
+Close Scope N_scope.
